@@ -4,6 +4,7 @@
   Model: `sortMoves`, `moveLoop`, `finish` (`src/move_list.rs`, `src/search.rs`), generic in the rules.
 -/
 import Jence.Lemmas.Top
+import Jence.Lemmas.LegalMoves
 namespace Jence.Props.C06
 open Jence
 
@@ -74,5 +75,36 @@ theorem ply_cap (R : Rules) (cfg : Cfg) (rec : Game → Nat → Int → Int → 
   simp only
   have : ({ e with pvLen := e.pvLen.setIfInBounds e.ply e.ply } : Env).ply ≥ Gen.MAX_PLY - 1 := h
   rw [if_pos this]
+
+/-- **T6.1** The search only ever steps into consistent positions: a child the move loop recurses into (a generated move
+    that `make_search_move` accepted) is consistent again, no capture in it aims at a king, its key is the from-scratch
+    key, and it is the rules' successor position. By induction every node of every search tree has these properties
+    whenever the root has them. -/
+theorem children_consistent (g g' : Game) (b : Board) (m : Move) (all : Bool)
+    (wf : Wf g b) (nk : NoKingCapture g) (hkey : g.key = scratchKey g) (hm : m ∈ chessRules.generate g all)
+    (hmk : chessRules.make g m = some g') :
+    Wf g' (applyB b g.white m) ∧ NoKingCapture g' ∧ g'.key = scratchKey g' ∧
+    (Spec.abs g').board = (Spec.apply (Spec.abs g) (smove m)).board := by
+  have hm' : m ∈ generateMoves g all := hm
+  have hcore : makeCore g m = some g' := hmk
+  have fits := gen_fits wf nk all m hm'
+  have flags := gen_flags wf all m hm'
+  have hforce := makeCore_some hcore
+  refine ⟨makeCore_wf g g' m b wf fits hcore, makeCore_nk g g' m b wf fits hcore, makeCore_wf_key g g' m b wf fits hkey hcore, ?_⟩
+  rw [hforce]; exact apply_board wf fits flags
+
+/-- **T6.3, against the rules.** Where the engine finds no generated move that survives `make`, the rules position has
+    no legal move; so the mate / stalemate verdict of `terminal_verdict` is the rules' verdict. -/
+theorem terminal_verdict_rules (g : Game) (b : Board) (wf : Wf g b) (nk : NoKingCapture g)
+    (h : ∀ m ∈ generateMoves g true, makeCore g m = none) :
+    Spec.legalMoves (Spec.abs g) = [] ∧ isInCheck g g.white = Spec.inCheck (Spec.abs g) (Spec.abs g).white := by
+  refine ⟨?_, inCheck_refines wf g.white⟩
+  cases hl : Spec.legalMoves (Spec.abs g) with
+  | nil => rfl
+  | cons sm l =>
+    obtain ⟨m, hm, _⟩ := (legal_refines wf nk sm).1 (by rw [hl]; exact List.mem_cons_self)
+    rw [Props.C01.legalValues_eq_made g wf.ok.epLe] at hm
+    obtain ⟨hgen, hacc⟩ := List.mem_filter.1 hm
+    rw [h m hgen] at hacc; exact absurd hacc (by simp)
 
 end Jence.Props.C06
